@@ -50,6 +50,7 @@ type hHandler struct {
 	Alts         []pSec   `json:"alts"`
 	Params       []hParam `json:"params"`
 	ReturnsValue bool     `json:"returnsValue"`
+	RespCheck    string   `json:"respCheck"` // validity of the zero value under validateResponsePayload: valid | invalid | unknown
 }
 
 type vToken struct {
@@ -252,6 +253,13 @@ func GleeceRequestAuthorization(ctx context.Context, engineCtx any, check runtim
 	return ctx, &runtime.SecurityError{Message: "refused by script", StatusCode: runtime.HttpStatusCode(status)}
 }
 `
+}
+
+func respCheckOf(h *hHandler) string {
+	if h.RespCheck == "" {
+		return "valid"
+	}
+	return h.RespCheck
 }
 
 func recHook(c pCtrl, m pMethod, retLocal []string, imports map[string]bool) string {
@@ -1038,7 +1046,7 @@ func routerTrace(args []string) error {
 					canonArgs = append(canonArgs, strings.ReplaceAll(a, unicodeSample, "<U1>"))
 				}
 				ev := map[string]any{"ev": "Run", "probe": rq.Probe, "target": h.Ctrl + "." + h.Method, "toks": toks, "script": script, "fail": rq.Fail, "sameErr": rq.SameErr, "setStatus": rq.SetStatus,
-					"handler": map[string]any{"alts": alts, "params": params, "returnsValue": h.ReturnsValue},
+					"handler": map[string]any{"alts": alts, "params": params, "returnsValue": h.ReturnsValue, "respCheck": respCheckOf(h)},
 					"obs": map[string]any{"auth": auth, "invoked": invoked, "target": target, "args": canonArgs, "status": res.Status, "panicked": panicked}}
 				fmt.Fprintln(f, mustJSON(ev))
 				fmt.Fprintf(fi, "%s %d %s\n", rec.ID, rq.Rid, res.Engine)
